@@ -20,6 +20,7 @@ CLAIMED = {
  "C03": ("model_checking", "s6 C03", "The lookup algorithm is transcribed into TLA+ and checked by TLC against the half-open-interval definition for all breakpoint vectors, times, hints and hint histories on a lattice (3 broken twins rejected); the real class is driven through every route for thousands of (object, t, k, hint) cases and TLC validates identical bits, the exact value of the defined piece and the hint post-state."),
  "C11": ("model_checking", "s6 C11", "TLC explores the PPolyND life cycle with both lazy caches modelled (no stale read reachable, 2 broken twins rejected) and generates one script per abstract transition; replayed on the real class, every evaluation must equal the exact value of the latest data of that object; spline objects are rebuilt after evaluation and evaluated again."),
  "C20": ("model_checking", "s6 C20", "The sequence contract is model-checked over an integer lattice (broken twin rejected); recorded time sequences (incl. steps that nearly divide the interval), trajectory lengths, batch evaluations and factory objects are validated exactly on the logged bits."),
+ "C17": ("model_checking", "s6 C17", "Positivity, strict monotonicity, C^2 smoothness at the switch point, the backward rule and the inverse law are TLC theorems on a rational lattice (broken twin rejected); recorded toTime/toTau/backward values on lattices that include adjacent doubles and subnormals are judged against the exact rational map."),
 }
 PENDING = {}
 checks = []
